@@ -707,10 +707,8 @@ func RunSequence(args []string, opts GlobalOptions) error {
 		return errors.New(usage)
 	}
 
-	for _, edge := range edges {
-		if err := writeLinkEvent(dir, opts, action, edge.FromID, edge.ToID); err != nil {
-			return err
-		}
+	if err := writeLinkEvents(dir, opts, action, edges); err != nil {
+		return err
 	}
 
 	if opts.JSON {
